@@ -89,13 +89,38 @@ def main():
                 os.makedirs(d, exist_ok=True)
                 open(os.path.join(d, '__init__.py'), 'a').close()
             path = os.path.join(d, stem + '.py')
-            with open(path, 'a') as f:
-                f.write('from %s%s import nm as al\n' % ('.' * level, target or ''))
+            text = 'from %s%s import nm as al\n' % ('.' * level, target or '')
+            if link == 'file':
+                # the module file is a link to a file that sits at ANOTHER package position
+                vend = os.path.join(base, 'src', 'vendorpkg', 'deep')
+                os.makedirs(vend, exist_ok=True)
+                for q in (os.path.join(base, 'src', 'vendorpkg'), vend):
+                    open(os.path.join(q, '__init__.py'), 'a').close()
+                with open(os.path.join(vend, 'impl.py'), 'w') as f:
+                    f.write(text)
+                os.symlink(os.path.join(vend, 'impl.py'), path)
+            elif link == 'sub' and len(real_comps) >= 2:
+                # the innermost package directory is a link to a directory at another package position
+                vend = os.path.join(base, 'src', 'vendorpkg')
+                os.makedirs(vend, exist_ok=True)
+                open(os.path.join(vend, '__init__.py'), 'a').close()
+                shutil.rmtree(d)
+                inner = os.path.join(vend, 'inner_v3')
+                os.makedirs(inner, exist_ok=True)
+                open(os.path.join(inner, '__init__.py'), 'a').close()
+                with open(os.path.join(inner, stem + '.py'), 'w') as f:
+                    f.write(text)
+                os.symlink(inner, d)
+            else:
+                with open(path, 'a') as f:
+                    f.write(text)
             search_root = base
             if link:
                 search_root = os.path.join(base, 'site')
                 os.makedirs(search_root)
                 os.symlink(os.path.join('..', 'src', real_comps[0]), os.path.join(search_root, comps[0]))
+            if link in ('file', 'sub'):
+                search_root = os.path.join(base, 'src')
             try:
                 if c.get('via_main'):
                     # the whole glue of `kernprof -l -p <pkg> -m <module>`: the file main() hands to the auto-profiling
@@ -104,7 +129,10 @@ def main():
                     seen = {}
 
                     def fake_run(script_file, ns, prof_mod=None, profile_imports=False, as_module=False):
+                        # what the real run() does up to (not including) compile/exec: the rewritten tree
                         seen['script_file'] = script_file
+                        Profiler = AP.AstTreeModuleProfiler if as_module else AP.AstTreeProfiler
+                        seen['tree'] = Profiler(script_file, prof_mod, profile_imports).profile()
                     orig_run, old_cwd, old_argv, old_path = AP.run, os.getcwd(), list(sys.argv), list(sys.path)
                     AP.run = fake_run
                     os.chdir(search_root)
@@ -122,6 +150,7 @@ def main():
                         import builtins
                         builtins.__dict__.pop('profile', None)
                     use = seen['script_file']
+                    tree = seen['tree']
                 elif c.get('via_find'):
                     old_path = list(sys.path)
                     sys.path.insert(0, search_root)
@@ -133,8 +162,9 @@ def main():
                     use = found
                 else:
                     use = os.path.join(search_root, *comps, stem + '.py')
-                tree = RM.AstTreeModuleProfiler._get_script_ast_tree(use)
-                n = [x for x in ast.walk(tree) if isinstance(x, ast.ImportFrom)][0]
+                if not c.get('via_main'):
+                    tree = RM.AstTreeModuleProfiler._get_script_ast_tree(use)
+                n = [x for x in ast.walk(tree) if isinstance(x, ast.ImportFrom) and [a.name for a in x.names] == ['nm']][0]
                 got = (n.module, n.level, [(a.name, a.asname) for a in n.names])
             except BaseException as e:  # noqa
                 got = (type(e).__name__, -1, [])
